@@ -3,6 +3,7 @@
     {arg.rs, arg_group.rs, command.rs, range.rs, action.rs}, src/mkeymap.rs) *)
 From ClapModel Require Import Base.Bytes Base.Machine Base.Utf8.
 From Coq Require Import ZArith.
+From ClapModel Require Value.ValueBase Value.PossibleValues.
 From RecordUpdate Require Import RecordSet.
 Import RecordSetNotations.
 Open Scope N_scope.
@@ -52,13 +53,38 @@ Definition action_default_value (a : action) : option bytes :=
 Definition action_default_missing_value (a : action) : option bytes :=
   match a with ASetTrue => Some s_true | ASetFalse => Some s_false | _ => None end.
 
-(** ---- value parsers (the subset used by the parser model; C04 treats them in depth) ---- *)
-Inductive vparser := VPString | VPOsString | VPBool | VPCount | VPI64 (lo hi : Z).
+(** ---- value parsers (the parser model's names for them; C04 treats them in depth: the functions
+    behind [VPBoolish] ... [VPRanged] are the models of Value/*.v, see [Parser.vp_parse]) ----
+    [VPCount] = the [value_parser!(u8)] an [ArgAction::Count] argument gets by default;
+    [VPI64 lo hi] = [value_parser!(i64).range(lo..=hi)];
+    [VPBoolish] / [VPFalsey] / [VPNonEmpty] = [BoolishValueParser] / [FalseyValueParser] /
+    [NonEmptyStringValueParser];
+    [VPPossible ic pvs] = [PossibleValuesParser] over [pvs] (value, [is_hide_set]) where [ic] is what
+    [parse_ref] reads from the argument it is called for ([arg.is_ignore_case_set()], [false] for the
+    external-subcommand parser): the spec reader copies the argument's flag into it ([pv_coherent]);
+    [VPRanged t lo hi] = [value_parser!(T).range(lo..=hi)] for an integer type [T]
+    ([RangedI64ValueParser<T>], [RangedU64ValueParser<u64>] for u64). *)
+Inductive vparser := VPString | VPOsString | VPBool | VPCount | VPI64 (lo hi : Z)
+  | VPBoolish | VPFalsey | VPNonEmpty
+  | VPPossible (ic : bool) (pvs : list (ClapModel.Value.PossibleValues.possible_value * bool))
+  | VPRanged (t : ClapModel.Value.ValueBase.ity) (lo hi : Z).
 Definition action_default_vp (a : action) : option vparser :=
   match a with ASetTrue | ASetFalse => Some VPBool | ACount => Some VPCount | _ => None end.
+(** [TypeId] of the integer target types: u8 is [VPCount]'s, i64 is [VPI64]'s *)
+Definition ity_type (t : ClapModel.Value.ValueBase.ity) : N :=
+  match t with
+  | ClapModel.Value.ValueBase.U8 => 3 | ClapModel.Value.ValueBase.I64 => 4
+  | ClapModel.Value.ValueBase.I8 => 5 | ClapModel.Value.ValueBase.U16 => 6
+  | ClapModel.Value.ValueBase.I16 => 7 | ClapModel.Value.ValueBase.U32 => 8
+  | ClapModel.Value.ValueBase.I32 => 9 | ClapModel.Value.ValueBase.U64 => 10
+  end.
 (** [ArgAction::value_type_id] compared with the parser's type id in [assert_arg] *)
 Definition vp_type (v : vparser) : N :=
-  match v with VPString => 0 | VPOsString => 1 | VPBool => 2 | VPCount => 3 | VPI64 _ _ => 4 end.
+  match v with
+  | VPString => 0 | VPOsString => 1 | VPBool => 2 | VPCount => 3 | VPI64 _ _ => 4
+  | VPBoolish | VPFalsey => 2 | VPNonEmpty | VPPossible _ _ => 0
+  | VPRanged t _ _ => ity_type t
+  end.
 Definition action_value_type (a : action) : option N :=
   match a with ASetTrue | ASetFalse => Some 2 | ACount => Some 3 | _ => None end.
 
@@ -166,6 +192,9 @@ Definition a_is_positional a := negb (is_some (a_long a)) && negb (is_some (a_sh
 Definition a_takes_value a := r_takes_values (opt_default r_single (a_num a)).
 Definition a_multiple_values a := r_is_multiple (opt_default r_single (a_num a)).
 Definition a_is_multiple a := a_multiple_values a || match a_get_action a with AAppend => true | _ => false end.
+(** the [ignore_case] a [PossibleValuesParser] works with is the argument's own setting *)
+Definition pv_coherent (a : arg) : bool :=
+  match a_vp a with Some (VPPossible ic _) => Bool.eqb ic (a_ignore_case a) | _ => true end.
 
 (** ---- accessors mirroring Command ---- *)
 Definition is_set (f : settings -> bool) (c : cmd) := f (c_set c) || f (c_gset c).
